@@ -505,7 +505,7 @@ func runC20(cases string, res *Result) {
 		res.Evaluations++
 		return eng.Render(id, map[string]interface{}{"x": x})
 	}
-	knownReported := false
+	var knownFinding *Finding
 	pairsSeen := map[string]bool{}
 
 	readCases(cases, func(c Case) {
@@ -584,10 +584,10 @@ func runC20(cases string, res *Result) {
 				if cls == "typed-map-dot" && got == exp {
 					// known class: the faithful model predicts the same wrong observable
 					res.Hist["known:typed-map-dot"]++
-					if !knownReported {
-						knownReported = true
-						res.add(Finding{Kind: "oracle", Where: where, Case: small, Expected: spec, Observed: got, Known: "typed-map-dot",
-							Detail: "x.name on a typed map (not map[string]interface{}) gives nothing although the key is present; x['name'] gives the value"})
+					if knownFinding == nil {
+						// added after all other findings, so that a listed or unlisted known class never hides a new failure
+						knownFinding = &Finding{Kind: "oracle", Where: where, Case: small, Expected: spec, Observed: got, Known: "typed-map-dot",
+							Detail: "x.name on a typed map (not map[string]interface{}) gives nothing although the key is present; x['name'] gives the value"}
 					}
 				} else {
 					res.add(Finding{Kind: "oracle", Where: where, Case: full(), Expected: direct, Observed: got,
@@ -630,6 +630,12 @@ func runC20(cases string, res *Result) {
 			}
 		}
 	})
+	if knownFinding != nil {
+		if len(res.Findings) >= 40 {
+			res.Findings = res.Findings[:39]
+		}
+		res.add(*knownFinding)
+	}
 	res.Hist["distinct_struct_type_name_pairs"] = len(pairsSeen)
 	if c20CacheStats == nil {
 		res.Notes = append(res.Notes, "no cache hook: the size accounting of attributeCache (currSize = number of entries <= maxSize) is covered by the translator shape check and C20_cache_bounded only")
